@@ -7,6 +7,7 @@ import (
 	"errors"
 	"fmt"
 	"testing"
+	"testing/synctest"
 
 	"github.com/honeycombio/refinery/config"
 	"github.com/honeycombio/refinery/internal/health"
@@ -43,22 +44,39 @@ func (c *c34Client) SendCustomMessage(msg *protobufs.CustomMessage) (chan struct
 // Agent.sendUsageReport. sendUsageReport runs in its own goroutine (as under
 // reportUsagePeriodically); the harness advances it one critical section at a
 // time through the scripted client while Grow/Sample actions (the healthCheck
-// goroutine's usageTracker.Add) are applied in between. All synchronisation
-// is by channel hand-off; there is no clock.
+// goroutine's usageTracker.Add) are applied in between.
+//
+// The harness never assumes which path the real code takes. It runs inside a
+// testing/synctest bubble, and after every stimulus (start of
+// sendUsageReport, an answer of the client, closing a channel the client
+// handed out) settle() lets the real goroutine run until it is durably
+// blocked or gone and then OBSERVES which of three things happened: it called
+// SendCustomMessage (again), it returned, or it is waiting. The phase, the
+// result and the totals reported to the walker are derived from those
+// observations only, so code that takes an unexpected path shows up as a
+// projection no specification state has (a divergence), never as a hang.
+// There is no clock and no sleep: synctest.Wait is deterministic.
 type c34Harness struct {
 	agent     *Agent
 	cancel    context.CancelFunc
 	cl        *c34Client
 	signals   []usageSignal
 	cum       map[usageSignal]int
-	delivered map[usageSignal]int
+	delivered map[usageSignal]int // usage in messages the client accepted and sent (environment truth)
 	report    map[usageSignal]int // usage in the message being sent
+	first     map[usageSignal]int // usage in the first attempt of this report
+	accepted  map[usageSignal]int // usage in the message the client accepted
 	phase     string
 	res       string
 	done      chan error    // result of the running sendUsageReport
-	isSent    chan struct{} // channel handed to the code by the last answer
+	running   bool          // a sendUsageReport goroutine exists
+	awaiting  bool          // it is inside SendCustomMessage waiting for the client's answer
+	ncalls    int           // SendCustomMessage calls of the running sendUsageReport
+	last      string        // the client's last answer: "", "fail", "pending", "accept"
+	open      chan struct{} // channel handed out by the last answer, still open
 	negative  []string
 	extra     []string
+	leaked    int
 }
 
 func c34SignalOf(name, attr string) usageSignal {
@@ -70,7 +88,7 @@ func c34SignalOf(name, attr string) usageSignal {
 	return usageSignal(name + "/" + attr)
 }
 
-// c34Parse sums the usage per signal carried by one report payload.
+// parse sums the usage per signal carried by one report payload.
 func (h *c34Harness) parse(data []byte) (map[usageSignal]int, error) {
 	m, err := (&pmetric.JSONUnmarshaler{}).UnmarshalMetrics(data)
 	if err != nil {
@@ -116,17 +134,86 @@ func (h *c34Harness) parse(data []byte) (map[usageSignal]int, error) {
 	return out, nil
 }
 
+var c34ErrRefused = errors.New("verif: connection refused")
+
+// settle lets the real goroutine run until it is durably blocked (or has
+// exited) and records what it did.
+func (h *c34Harness) settle() error {
+	synctest.Wait()
+	if !h.running {
+		return nil
+	}
+	select {
+	case data := <-h.cl.calls:
+		rep, err := h.parse(data)
+		if err != nil {
+			return fmt.Errorf("unparsable usage report: %w", err)
+		}
+		h.ncalls++
+		h.awaiting = true
+		h.phase = "offered"
+		if h.ncalls == 1 {
+			h.first = rep
+		} else {
+			for _, s := range h.signals { // a retry must carry the same report
+				if rep[s] != h.first[s] {
+					h.extra = append(h.extra, fmt.Sprintf("attempt %d carries %v, first attempt carried %v", h.ncalls, rep, h.first))
+					break
+				}
+			}
+		}
+		h.report = rep
+	case err := <-h.done:
+		h.finish(err)
+	default:
+		// neither called nor returned: it waits
+		switch {
+		case h.open != nil && h.last == "pending":
+			h.phase = "waitprev"
+		case h.open != nil && h.last == "accept":
+			h.phase = "accepted"
+		default:
+			h.phase = "stuck" // blocked on nothing the client handed out
+		}
+	}
+	return nil
+}
+
+func (h *c34Harness) finish(err error) {
+	h.running, h.awaiting, h.open, h.ncalls = false, false, nil, 0
+	h.phase = "idle"
+	h.report = map[usageSignal]int{}
+	switch {
+	case err == nil:
+		h.res = "ok"
+	case errors.Is(err, errNoData):
+		h.res = "nodata"
+	default:
+		h.res = "fail"
+	}
+}
+
+// shutdown ends whatever the previous walk left running, from any state.
 func (h *c34Harness) shutdown() {
 	if h.agent == nil {
 		return
 	}
 	h.cancel()
-	switch h.phase {
-	case "offered", "offered2":
-		h.cl.answers <- c34Answer{nil, errors.New("verif: harness reset")}
-	}
-	if h.phase != "idle" {
-		<-h.done // ctx.Done() unblocks the waits on the isSent channels
+	for i := 0; h.running && i < 8; i++ {
+		if h.awaiting {
+			h.cl.answers <- c34Answer{nil, errors.New("verif: harness reset")}
+			h.awaiting = false
+		}
+		synctest.Wait()
+		select {
+		case <-h.cl.calls:
+			h.awaiting = true
+		case <-h.done:
+			h.running = false
+		default:
+			i = 8 // blocked on something cancelling the context does not release
+			h.leaked++
+		}
 	}
 	h.agent = nil
 }
@@ -149,6 +236,7 @@ func (h *c34Harness) Reset(init map[string]any) error {
 		h.signals = append(h.signals, sig)
 	}
 	h.phase, h.res = "idle", "none"
+	h.running, h.awaiting, h.open, h.ncalls, h.last = false, false, nil, 0, ""
 	h.negative, h.extra = nil, nil
 	h.cl = &c34Client{calls: make(chan []byte), answers: make(chan c34Answer)}
 	ctx, cancel := context.WithCancel(context.Background())
@@ -170,43 +258,14 @@ func (h *c34Harness) Reset(init map[string]any) error {
 	return nil
 }
 
-// offered waits until the running sendUsageReport either offers a message to
-// the client or returns.
-func (h *c34Harness) awaitOfferOrReturn(next string) error {
-	select {
-	case data := <-h.cl.calls:
-		rep, err := h.parse(data)
-		if err != nil {
-			return fmt.Errorf("unparsable usage report: %w", err)
-		}
-		if next == "offered2" {
-			// the retry must carry the same report
-			for _, s := range h.signals {
-				if rep[s] != h.report[s] {
-					h.extra = append(h.extra, fmt.Sprintf("retry carries %v, first attempt carried %v", rep, h.report))
-					break
-				}
-			}
-		}
-		h.report = rep
-		h.phase = next
-	case err := <-h.done:
-		h.finish(err)
+// answer gives the client's answer to the SendCustomMessage call in progress.
+func (h *c34Harness) answer(kind string, a c34Answer) error {
+	if !h.awaiting {
+		return fmt.Errorf("%s: the real code is not inside SendCustomMessage (observed phase %s)", kind, h.phase)
 	}
-	return nil
-}
-
-func (h *c34Harness) finish(err error) {
-	h.phase = "idle"
-	h.report = map[usageSignal]int{}
-	switch {
-	case err == nil:
-		h.res = "ok"
-	case errors.Is(err, errNoData):
-		h.res = "nodata"
-	default:
-		h.res = "fail"
-	}
+	h.awaiting, h.last, h.open = false, kind, a.ch
+	h.cl.answers <- a
+	return h.settle()
 }
 
 func (h *c34Harness) Apply(a map[string]any) error {
@@ -218,42 +277,42 @@ func (h *c34Harness) Apply(a map[string]any) error {
 	case "Sample":
 		h.agent.usageTracker.Add(sig, float64(h.cum[sig]))
 	case "NewReport":
-		if h.phase != "idle" {
-			return fmt.Errorf("NewReport in phase %s", h.phase)
+		if h.running {
+			return fmt.Errorf("NewReport while sendUsageReport is running (observed phase %s)", h.phase)
 		}
 		h.done = make(chan error, 1)
+		h.running, h.ncalls, h.last, h.open = true, 0, "", nil
 		h.res = "none" // no outcome yet
 		ag, done := h.agent, h.done
 		go func() { done <- ag.sendUsageReport() }()
-		return h.awaitOfferOrReturn("offered")
+		return h.settle()
 	case "RespondFail":
-		h.cl.answers <- c34Answer{nil, errors.New("verif: connection refused")}
-		h.finish(<-h.done)
+		return h.answer("fail", c34Answer{nil, c34ErrRefused})
 	case "RespondPending":
-		h.isSent = make(chan struct{})
-		h.cl.answers <- c34Answer{h.isSent, types.ErrCustomMessagePending}
-		if h.phase == "offered" {
-			h.phase = "waitprev"
-		} else {
-			h.finish(<-h.done) // a second "pending" makes sendUsageReport give up
-		}
+		// the channel of the message that is in the way; it stays open until PrevSent
+		return h.answer("pending", c34Answer{make(chan struct{}), types.ErrCustomMessagePending})
 	case "PrevSent":
-		close(h.isSent)
-		return h.awaitOfferOrReturn("offered2")
-	case "Accept":
-		h.isSent = make(chan struct{})
-		h.cl.answers <- c34Answer{h.isSent, nil}
-		h.phase = "accepted"
-	case "Ack":
-		sent := h.report
-		close(h.isSent)
-		err := <-h.done
-		h.finish(err)
-		if err == nil {
-			for s, v := range sent {
-				h.delivered[s] += v
-			}
+		if h.open == nil || h.last != "pending" {
+			return fmt.Errorf("PrevSent: no pending message (observed phase %s)", h.phase)
 		}
+		close(h.open)
+		h.open = nil
+		return h.settle()
+	case "Accept":
+		h.accepted = h.report
+		return h.answer("accept", c34Answer{make(chan struct{}), nil})
+	case "Ack":
+		if h.open == nil || h.last != "accept" {
+			return fmt.Errorf("Ack: no accepted message (observed phase %s)", h.phase)
+		}
+		// the client has sent the accepted message: that usage is delivered,
+		// whatever the code makes of it
+		for s, v := range h.accepted {
+			h.delivered[s] += v
+		}
+		close(h.open)
+		h.open = nil
+		return h.settle()
 	default:
 		return fmt.Errorf("unknown action %v", a)
 	}
@@ -272,7 +331,7 @@ func (h *c34Harness) Project() (any, error) {
 			rep[string(s)] = v
 		}
 	}
-	out := map[string]any{"phase": h.phase, "report": rep, "delivered": del, "res": h.res}
+	out := map[string]any{"phase": h.phase, "attempt": h.ncalls, "report": rep, "delivered": del, "res": h.res}
 	if len(h.negative) > 0 {
 		out["negative"] = h.negative
 	}
@@ -282,11 +341,57 @@ func (h *c34Harness) Project() (any, error) {
 	return out, nil
 }
 
+// The walker (verifkit.Main) stays outside the synctest bubble so that its
+// budget runs on the real clock; it talks to the harness, which lives inside
+// the bubble, through c34Proxy.
+type c34Req struct {
+	kind  string
+	arg   map[string]any
+	reply chan c34Resp
+}
+
+type c34Resp struct {
+	v   any
+	err error
+}
+
+type c34Proxy struct{ reqs chan c34Req }
+
+func (p *c34Proxy) call(kind string, arg map[string]any) (any, error) {
+	r := c34Req{kind, arg, make(chan c34Resp, 1)}
+	p.reqs <- r
+	x := <-r.reply
+	return x.v, x.err
+}
+
+func (p *c34Proxy) Reset(init map[string]any) error { _, err := p.call("reset", init); return err }
+func (p *c34Proxy) Apply(a map[string]any) error    { _, err := p.call("apply", a); return err }
+func (p *c34Proxy) Project() (any, error)           { return p.call("project", nil) }
+
 func TestVerifC34Usage(t *testing.T) {
-	h := &c34Harness{}
-	err := verifkit.Main(h)
-	h.shutdown()
-	if err != nil {
+	p := &c34Proxy{reqs: make(chan c34Req)}
+	result := make(chan error, 1)
+	go func() {
+		result <- verifkit.Main(p)
+		close(p.reqs)
+	}()
+	synctest.Test(t, func(t *testing.T) {
+		h := &c34Harness{}
+		for r := range p.reqs {
+			var x c34Resp
+			switch r.kind {
+			case "reset":
+				x.err = h.Reset(r.arg)
+			case "apply":
+				x.err = h.Apply(r.arg)
+			case "project":
+				x.v, x.err = h.Project()
+			}
+			r.reply <- x
+		}
+		h.shutdown()
+	})
+	if err := <-result; err != nil {
 		t.Fatal(err)
 	}
 }
